@@ -178,7 +178,13 @@ class Projector(object):
                         # names of the boot catalog share its (in-memory) content
                         self.classes.setdefault('cat', []).append((ns, p))
                         e['_ino'] = 'cat'
-                if k == 'file':
+                if k == 'file' and self.total_length(c) >= (1 << 31):
+                    # a multi-extent file: too large to read here; identified by its total length
+                    total = self.total_length(c)
+                    e['n'] = (1 << 31) - 1
+                    hit = [b for b, n in tab.virtual.items() if n == total]
+                    e['b'] = hit[0] if hit else '?len%x' % total
+                elif k == 'file':
                     e['n'] = c.get_data_length()
                     try:
                         data = self.read(ns, capi, c)
@@ -191,6 +197,17 @@ class Projector(object):
                 if k == 'dir':
                     stack.append((p, capi, c))
         return out
+
+    @staticmethod
+    def total_length(rec):
+        """data length of a file over all the records of a multi-extent chain"""
+        if _is_udf(rec):
+            return rec.get_data_length()
+        n = 0
+        while rec is not None:
+            n += rec.get_data_length()
+            rec = rec.data_continuation
+        return n
 
     def is_catalog_name(self, rec):
         cat = self.iso.eltorito_boot_catalog
